@@ -1,12 +1,13 @@
 import Ftp.Spec.Session
 import Ftp.Props.C05
+import Ftp.Lemmas.ClientData
 /-
   C03 - binary download and listings deliver exactly the bytes the server sent.
   Model: `Ftp.Client.dataRecv` (data_connection::recv) behind the stream chosen by the transfer type,
   `Ftp.Client.fileList`.
 -/
 namespace Ftp.Props.C03
-open Ftp Ftp.Client Ftp.Session
+open Ftp Ftp.Client Ftp.Session Ftp.Client.DataL
 
 /-- the sink-side events of a trace -/
 def sinkEvents (tr : List Ev) : List Ev := tr.filter fun | .sinkWrite _ | .sinkWriteFail | .sinkFlush => true | _ => false
@@ -15,6 +16,15 @@ def sinkEvents (tr : List Ev) : List Ev := tr.filter fun | .sinkWrite _ | .sinkW
     deliver the whole payload; afterwards the peer's close is seen as end-of-file -/
 def Segmentation (payload : Bytes) (reads : List Nat) : Prop :=
   (∀ n ∈ reads, 0 < n ∧ n ≤ 8192) ∧ reads.sum = payload.length
+
+private theorem sinkEvents_blocks (d : Nat) (reads : List Nat) (tail : List Ev) :
+    sinkEvents ((reads.map fun n => [Ev.dataRead d n, Ev.sinkWrite n]).flatten ++ tail) =
+      reads.map Ev.sinkWrite ++ sinkEvents tail := by
+  induction reads with
+  | nil => rfl
+  | cons n rs ih =>
+    simp only [sinkEvents, List.map_cons, List.flatten_cons, List.cons_append, List.nil_append] at ih ⊢
+    simp [ih]
 
 /-- binary download: for every payload (every length, every byte value) and every segmentation, the sink receives
     exactly the payload - appended to what it held, nothing lost, duplicated or reordered - and is asked to flush
@@ -27,7 +37,10 @@ theorem binary_delivers_exactly (w : World) (payload : Bytes) (reads : List Nat)
     (after (dataRecv false .binary) w).sinkFlushes = w.sinkFlushes + 1 ∧
     sinkEvents (added (dataRecv false .binary) w) = reads.map Ev.sinkWrite ++ [Ev.sinkFlush] ∧
     (after (dataRecv false .binary) w).dataReads = more := by
-  sorry
+  obtain ⟨h1, h2, h3, h4, h5, _⟩ := dataRecv_delivers .binary w payload reads more hseg.1 hseg.2 hact hreads hsink
+  refine ⟨h1, h4 rfl, h2, ?_, h3⟩
+  rw [added_of_trace _ _ _ (h5 rfl hsil), sinkEvents_blocks]
+  rfl
 
 /-- the result does not depend on the segmentation -/
 theorem binary_segmentation_independent (w : World) (payload : Bytes) (r1 r2 : List Nat) (m1 m2 : List (Option Nat))
@@ -35,7 +48,8 @@ theorem binary_segmentation_independent (w : World) (payload : Bytes) (r1 r2 : L
     (hsink : w.sinkFailAt = none) (hsil : w.sinkSilent = false) :
     (after (dataRecv false .binary) { w with dataReads := r1.map some ++ some 0 :: m1 }).sink =
     (after (dataRecv false .binary) { w with dataReads := r2.map some ++ some 0 :: m2 }).sink := by
-  sorry
+  rw [(binary_delivers_exactly { w with dataReads := r1.map some ++ some 0 :: m1 } payload r1 m1 h1 hact rfl hsink hsil).2.1,
+    (binary_delivers_exactly { w with dataReads := r2.map some ++ some 0 :: m2 } payload r2 m2 h2 hact rfl hsink hsil).2.1]
 
 /-- ASCII download end to end: the sink receives the payload with every CR LF replaced by LF (C05), for every
     segmentation -/
@@ -45,15 +59,16 @@ theorem ascii_delivers_converted (w : World) (payload : Bytes) (reads : List Nat
     result (dataRecv false .ascii) w = .ok () ∧
     (after (dataRecv false .ascii) w).sink = w.sink ++ Spec.dlSpec payload ∧
     (after (dataRecv false .ascii) w).sinkFlushes = w.sinkFlushes + 1 := by
-  sorry
+  obtain ⟨h1, h2, _, _, _, h6⟩ := dataRecv_delivers .ascii w payload reads more hseg.1 hseg.2 hact hreads hsink
+  exact ⟨h1, h6 rfl, h2⟩
 
 /-- a data stream that ends in an error (reset, truncated TLS stream) is never delivered as a complete transfer: the
     call throws and the sink is not flushed -/
 theorem read_error_is_reported (w : World) (t : TType) (reads : List Nat) (more : List (Option Nat)) (payload : Bytes)
-    (hpos : ∀ n ∈ reads, 0 < n) (hact : w.act = some (.send payload))
+    (hpos : ∀ n ∈ reads, 0 < n) (hlen : reads.sum ≤ payload.length) (hact : w.act = some (.send payload))
     (hreads : w.dataReads = reads.map some ++ none :: more) (hsink : w.sinkFailAt = none) :
     result (dataRecv false t) w = .throw ∧ (after (dataRecv false t) w).sinkFlushes = w.sinkFlushes := by
-  sorry
+  exact dataRecv_read_error t w payload reads more hpos hlen hact hreads hsink
 
 example :
     let w : World := { mode := .passive, ttype := .binary, rfc := true, act := some (.send (str "hello world")),
